@@ -202,7 +202,9 @@ def _heater_job(job):
                                                  f"expected {exp3}"), None
         # operation ladder
         for heat, cool in itertools.product((0, 1), repeat=2):
-            for cur, real in ((500, 600), (600, 600), (700, 600)):
+            # (incl. readings ONE device step apart, low and high in the range: the comparison is exact in both units)
+            for cur, real in ((500, 600), (600, 600), (700, 600), (270, 271), (271, 270), (680, 681), (681, 680), (719, 720),
+                              (720, 719), (1000, 1001), (1001, 1000), (65534, 65535), (0, 1)):
                 blk = b0
                 blk = f["DisplayedTempG"].put_raw(blk, cur)
                 blk = f["RealSetPointG"].put_raw(blk, real)
